@@ -10,7 +10,7 @@ from . import ops, extract
 from . import keyed as _keyed
 from .ops import exc, is_number
 from .values import (
-    Ref, ListE, DequeE, SetE, NumSetE, DictE, ObjE, NdE, SymListE, FuncVal, BoundMethod, ClassVal, BuiltinClass,
+    Ref, ListE, IterE, DequeE, SetE, NumSetE, DictE, ObjE, NdE, SymListE, FuncVal, BoundMethod, ClassVal, BuiltinClass,
     ModuleVal, Builtin, ExcVal, Exc, Opaque, SliceVal, SuperVal, Unknown, Unsupported, EngineError,
     is_z3, z3val, coerce_pair, as_arith, is_intlike, is_reallike, is_boollike, to_frac,
 )
@@ -355,6 +355,14 @@ def getattr(I, st, v, name):
 
             yield st, bi("type.__new__", _mc.type_new)
             return
+        if v.name == "object" and name == "__delattr__":
+            def _oda(I, st, a, k):
+                if len(a) != 2 or k or not isinstance(a[1], str):
+                    raise Unsupported("object.__delattr__ arguments")
+                yield from delattr(I, st, a[0], a[1], raw=True)  # the default deletion, bypassing a __delattr__ override
+
+            yield st, bi("object.__delattr__", _oda)
+            return
         if v.name == "object" and name == "__setattr__":
             # object.__setattr__(obj, name, value): the default attribute store (bypasses a __setattr__ override);
             # a property / descriptor of that name on the class would intercept it -> outside the model
@@ -400,6 +408,16 @@ def getattr(I, st, v, name):
                 def _sa(I, st, a, k):
                     yield from setattr(I, st, selfv, a[0], a[1], raw=True)
                 yield st, bi("object.__setattr__", _sa)
+                return
+            if name == "__new__" and isinstance(selfv, ClassVal):
+                def _onew(I, st, a, k):
+                    # object.__new__(C): a blank instance of C (extra arguments are an error unless __init__ is overridden)
+                    if len(a) != 1 or k or not isinstance(a[0], ClassVal):
+                        raise Unsupported("super().__new__ with extra arguments")
+                    if any(isinstance(c, BuiltinClass) and c.name != "object" for c in I.mro(a[0])):
+                        raise Unsupported("object.__new__ of a class with a builtin base")
+                    yield st, st.alloc(ObjE(a[0], {}))
+                yield st, bi("object.__new__", _onew)
                 return
             raise Unsupported("super().%s not found" % name)
         if isinstance(m, FuncVal):
@@ -491,6 +509,11 @@ def getattr(I, st, v, name):
         return
     if isinstance(v, Opaque):
         yield st, Opaque(v.desc + "." + name)
+        return
+    if isinstance(v, FuncVal) and not _b.getattr(v, "raw", False) and _b.getattr(v.node, "decorator_list", None) and any(
+            not I.transparent_decorator(d) for d in v.node.decorator_list):
+        # the name is bound to decorator(function): that object's attributes are the ones read
+        yield from getattr(I, st, I.decorated(v, st), name)
         return
     if isinstance(v, FuncVal):
         fa = _b.getattr(v, "fattrs", None) or {}
@@ -832,7 +855,9 @@ def setattr(I, st, obj, name, v, raw=False):
                 for st1, r in I.call(sa, [obj, name, v], {}, st):
                     yield st1, (r if isinstance(r, Exc) else None)
                 return
-            m, _ = I.class_lookup(obj.cls, name + ".setter")
+            m, mwhere = I.class_lookup(obj.cls, name + ".setter")
+            if m is not None and I.class_lookup(obj.cls, name)[1] != mwhere:
+                m = None  # a subclass redefines the property: the setter of the base class's property does not apply
             if m is not None:
                 for st1, r in I.call(m, [obj, v], {}, st):
                     yield st1, (r if isinstance(r, Exc) else None)
@@ -848,7 +873,9 @@ def setattr(I, st, obj, name, v, raw=False):
                 for st1, r in I.call(sa, [obj, name, v], {}, st):
                     yield st1, (r if isinstance(r, Exc) else None)
                 return
-            m, _ = I.class_lookup(e.cls, name + ".setter")
+            m, mwhere = I.class_lookup(e.cls, name + ".setter")
+            if m is not None and I.class_lookup(e.cls, name)[1] != mwhere:
+                m = None  # a subclass redefines the property: the setter of the base class's property does not apply
             if m is not None:
                 for st1, r in I.call(m, [obj, v], {}, st):
                     yield st1, (r if isinstance(r, Exc) else None)
@@ -938,7 +965,9 @@ def delattr(I, st, obj, name, raw=False):
             if isinstance(g, PropertyVal):
                 raise Unsupported("del of a run-time property")
             if isinstance(g, FuncVal) and "property" in g.decorators():
-                fdel, _ = I.class_lookup(e.cls, name + ".deleter")
+                fdel, dwhere = I.class_lookup(e.cls, name + ".deleter")
+                if fdel is not None and I.class_lookup(e.cls, name)[1] != dwhere:
+                    fdel = None
                 if fdel is None:
                     yield st, exc("AttributeError", "property '%s' of '%s' object has no deleter" % (name, e.cls.name))
                     return
@@ -1393,14 +1422,23 @@ def dict_method(I, st, ref, name):
             return
         yield st, d.get(I.hashable(a[0]), default)
 
+    def _view(st, lst):
+        # d.items() / keys() / values() are LIVE views; the model takes a snapshot and remembers the key set it was taken
+        # from: iterating / len() / `in` after the dict got or lost keys is refused (loops.lazy_check)
+        from .loops import sized_watch
+
+        r = st.alloc(ListE(lst))
+        st.ghost[("lazy_src", r.id)] = sized_watch(st, ref)
+        return r
+
     def items(I, st, a, k):
-        yield st, st.alloc(ListE([(kk, vv) for kk, vv in D(st).items()]))
+        yield st, _view(st, [(kk, vv) for kk, vv in D(st).items()])
 
     def keys(I, st, a, k):
-        yield st, st.alloc(ListE(list(D(st))))
+        yield st, _view(st, list(D(st)))
 
     def values(I, st, a, k):
-        yield st, st.alloc(ListE(list(D(st).values())))
+        yield st, _view(st, list(D(st).values()))
 
     def update(I, st, a, k):
         d = D(st)
@@ -2089,6 +2127,14 @@ def make_builtins(I):
         v = a[0]
         from . import bytesmodel
 
+        if isinstance(v, Ref) and isinstance(st.get(v), IterE):
+            yield st, exc("TypeError", "object of type 'iterator' has no len()")
+            return
+        if isinstance(v, Ref) and ("lazy_src", v.id) in st.ghost:
+            from .loops import lazy_check
+
+            lazy_check(st, st.ghost[("lazy_src", v.id)])  # a dict view whose dict has changed since
+
         if isinstance(v, (tuple, str, bytes)):
             yield st, len(v)
         elif isinstance(v, bytesmodel.BytesVal):
@@ -2169,8 +2215,8 @@ def make_builtins(I):
                 if all(isinstance(x, str) for x in items):
                     yield st, (min(items) if which == "min" else max(items))
                     return
-                yield st, exc("TypeError", "unorderable types in %s()" % which)
-                return
+                # objects ordered by their own __lt__ (or genuinely unorderable values): not modelled here
+                raise Unsupported("%s() over values that are not all numbers / strings / tuples" % which)
             r = items[0]
             for x in items[1:]:
                 r = ops.zmin(r, x) if which == "min" else ops.zmax(r, x)
@@ -2265,18 +2311,18 @@ def make_builtins(I):
         except Unsupported:
             yield st, M.EnumIter(inner, start)
             return
-        yield st, st.alloc(ListE([(ops_add(start, i), x) for i, x in enumerate(items)]))
+        yield st, st.alloc(IterE([(ops_add(start, i), x) for i, x in enumerate(items)]))
 
     add("enumerate", _enumerate)
 
     def _zip(I, st, a, k):
         cols = [I.iterate(x, st) for x in a]
-        yield st, st.alloc(ListE([tuple(t) for t in zip(*cols)]))
+        yield st, st.alloc(IterE([tuple(t) for t in zip(*cols)]))
 
     add("zip", _zip)
 
     def _reversed(I, st, a, k):
-        yield st, st.alloc(ListE(list(reversed(I.iterate(a[0], st)))))
+        yield st, st.alloc(IterE(list(reversed(I.iterate(a[0], st)))))
 
     add("reversed", _reversed)
 
@@ -2321,7 +2367,7 @@ def make_builtins(I):
                 yield cur, v
                 return
             out.append(v)
-        yield cur, cur.alloc(ListE(out))
+        yield cur, cur.alloc(IterE(out))
 
     add("map", _map)
 
@@ -2330,7 +2376,7 @@ def make_builtins(I):
 
         def rec(s, i, acc):
             if i == len(items):
-                yield s, s.alloc(ListE(acc))
+                yield s, s.alloc(IterE(acc))
                 return
             if f is None:
                 outs = [(s, items[i])]
@@ -2437,7 +2483,13 @@ def make_builtins(I):
     add("delattr", _delattr)
 
     def _callable(I, st, a, k):
-        yield st, isinstance(a[0], (FuncVal, BoundMethod, Builtin, ClassVal, BuiltinClass))
+        v = a[0]
+        if isinstance(v, Ref) and st.get(v).kind == "obj":
+            yield st, I.class_lookup(st.get(v).cls, "__call__")[0] is not None  # an instance is callable iff its class has __call__
+            return
+        from .values import Partial as _P
+
+        yield st, isinstance(v, (FuncVal, BoundMethod, Builtin, ClassVal, BuiltinClass, _P))
 
     add("callable", _callable)
 
@@ -2489,7 +2541,11 @@ def make_builtins(I):
         from .loops import lazy_begin, lazy_end
 
         old = lazy_begin(st)  # iter() is lazy: remember which list it walks (see loops.lazy_check)
-        acc = st.alloc(ListE(I.iterate(a[0], st)))
+        if isinstance(a[0], Ref) and isinstance(st.get(a[0]), IterE):
+            lazy_end(st, old, None)
+            yield st, a[0]  # iter(iterator) is the iterator itself
+            return
+        acc = st.alloc(IterE(I.iterate(a[0], st)))
         lazy_end(st, old, acc)
         yield st, acc
 
@@ -2498,6 +2554,12 @@ def make_builtins(I):
     def _next(I, st, a, k):
         v = a[0]
         if isinstance(v, Ref) and st.get(v).kind == "list":
+            if not isinstance(st.get(v), IterE):
+                yield st, exc("TypeError", "'list' object is not an iterator")
+                return
+            from .loops import lazy_check
+
+            lazy_check(st, st.ghost.get(("lazy_src", v.id)))
             items = st.get(v).items
             if items:
                 yield st, items.pop(0)
@@ -3147,25 +3209,37 @@ def make_ext_modules(I):
     # ---- pickle of PLAIN DATA only: numbers, bool, None, str, bytes, earlier pickles, tuples/lists/dicts/sets/arrays of these.
     # dumps() freezes a structurally equal, disjoint copy; loads() hands out a fresh copy of it.  Anything else
     # (instances, functions, classes) is outside the model -> Unsupported.
-    def _plain_copy(st, v, what):
+    def _plain_copy(st, v, what, memo=None):
+        """structurally equal, disjoint copy of plain data.  Like pickle's memo, an object reached twice is copied ONCE:
+        `a, b = loads(dumps((l, l)))` gives `a is b`, and a list that contains itself comes back as one cyclic list."""
         from . import bytesmodel
 
+        if memo is None:
+            memo = {}
         if v is None or isinstance(v, (bool, int, Fraction, str, bytes, PickleBlob, bytesmodel.BytesVal)) or is_z3(v):
             if is_z3(v) and not (z3.is_int(v) or z3.is_real(v) or z3.is_bool(v)):
                 raise Unsupported("%s of a term of sort %s" % (what, v.sort()))
             return v
         if isinstance(v, tuple) and type(v) is tuple:
-            return tuple(_plain_copy(st, x, what) for x in v)
+            return tuple(_plain_copy(st, x, what, memo) for x in v)
         if isinstance(v, Ref):
+            if v.id in memo:
+                return memo[v.id]
             e = st.get(v)
-            if e.kind == "list":
-                return st.alloc(ListE([_plain_copy(st, x, what) for x in e.items]))
-            if e.kind == "dict" and getattr_py(e, "default_factory") is None:
-                return st.alloc(DictE({_plain_copy(st, kk, what): _plain_copy(st, x, what) for kk, x in e.items.items()}))
+            if e.kind == "list" and type(e) is ListE:
+                new = memo[v.id] = st.alloc(ListE([]))
+                st.get(new).items = [_plain_copy(st, x, what, memo) for x in e.items]
+                return new
+            if e.kind == "dict" and getattr_py(e, "default_factory") is None and e.owner is None:
+                new = memo[v.id] = st.alloc(DictE({}))
+                st.get(new).items = {_plain_copy(st, kk, what, memo): _plain_copy(st, x, what, memo) for kk, x in e.items.items()}
+                return new
             if e.kind == "set":
-                return st.alloc(SetE([_plain_copy(st, x, what) for x in e.items]))
+                new = memo[v.id] = st.alloc(SetE([_plain_copy(st, x, what, memo) for x in e.items]))
+                return new
             if e.kind == "nd":
-                return st.alloc(NdE(e.shape, [_plain_copy(st, x, what) for x in e.data]))
+                new = memo[v.id] = st.alloc(NdE(e.shape, [_plain_copy(st, x, what, memo) for x in e.data]))
+                return new
         if isinstance(v, ClassVal) and what == "pickle":
             # classes are pickled by reference (module-level name): the same class object comes back
             return v
